@@ -399,6 +399,7 @@ func (store *HStore) Incr(ki *KeyInfo, value int) int {
 	ki.Prepare()
 	bkt := store.buckets[ki.BucketID]
 	if bkt.State != BUCKET_STAT_READY {
+		cmem.DBRL.SetData.SubCount(1)
 		return 0
 	}
 	return bkt.incr(ki, value)
